@@ -12,7 +12,7 @@ SPEC = {
                 # debug profile the same defect shows as a caught panic, outcome 99)
                 {"bin": "h_pathmgr", "n": {"quick": 90, "thorough": 2000}, "args": ["--prop", "C06"], "release": True, "known_bits": KNOWN,
                  "tiers": ["thorough"]}],
-    "rule": "event histories on one real PathSet + PathIssueManager (verif-hooks probe), debug and release profile: directed histories (expiry between two ticks under failing lookups / under lookups returning the same path, refresh with an already expired path, one issue re-reported outside the dedup window, distinct issues beyond the cache size, max_cached 0), enumerated and random histories with clock deltas {0,1,d-1,d,d+1} for d in thresholds, expiries and backoff steps, configurations from the validator's boundary (rejected ones included); oracles on the implementation's observations: handed-out path not expired, cache size, issue map and FIFO size, refetch window, no panic, and on timely stretches (send not later than the next due tick) no 'no path' answer while a cached path is valid",
+    "rule": "event histories on one real PathSet + PathIssueManager (verif-hooks probe), debug and release profile: directed histories (expiry between two ticks under failing lookups / under lookups returning the same path, refresh with an already expired path, one issue re-reported outside the dedup window, distinct issues beyond the cache size, max_cached 0), enumerated and random histories with clock deltas {0,1,d-1,d,d+1} for d in thresholds, expiries and backoff steps, configurations from the validator's boundary (rejected ones included); oracles on the implementation's observations: handed-out path not expired, cache size, issue map and FIFO size, refetch window, no panic, and on timely stretches (send not later than the next due tick) no 'no path' answer while a cached path is valid, and after a successful lookup with room in the cache every allowed unexpired path of the answer is cached (new or refreshing a cached entry) and the slot is not empty when one of them is valid",
     "assumptions": ["hand-out instants before 2^32 s (the code truncates now to u32 seconds)",
                     "backoff parameters non-negative and finite (Duration::from_secs_f32 panics otherwise; not checked by the validator)",
                     "durations small enough that SystemTime + Duration does not overflow",
